@@ -102,6 +102,11 @@ def oracle_pair(ep, outs):
         return fails
     if a["status"] != b["status"]:
         fails.append("status %s with gzip plugin, %s without" % (a["status"], b["status"]))
+    # ... and both are what the handler wrote (an interim 1xx before it does not count): a plugin common to the two chains
+    # — logging — must not change it either
+    wrote_status = whs[0][3:] if whs else "200"
+    if b["status"] != wrote_status and b["status"] != "413":
+        fails.append("the handler wrote status %s; through the chain without gzip the client got %s (%s)" % (wrote_status, b["status"], line))
     if a["body"] != b["body"]:
         fails.append("decoded body %s with gzip plugin, backend sent %s" % (a["body"], b["body"]))
     if a["short"] != b["short"] and b["short"] == "0":
